@@ -331,6 +331,13 @@ def check_case(chk: Check, impl: Impl, kind, edges, m, extras, m_re=None):
         chk.fail(f"PAFScorer construction raised on a tree skeleton: {r[1:]}", case, r)
         return i
     scorer, re_edges = r[1]
+    # the scorer's edge k must be the k-th LISTED edge (PAF channels 2k, 2k+1 follow the listing)
+    kept = [(int(et.src_node_ind), int(et.dst_node_ind)) for et in scorer.edge_types]
+    kept_inds = [tuple(int(x) for x in e) for e in scorer.edge_inds]
+    if kept != re_edges or kept_inds != re_edges:
+        chk.fail("PAFScorer does not keep the skeleton's edges in the order they were listed: edge_types "
+                 f"{kept}, edge_inds {kept_inds}, listed (re-indexed by part_names) {re_edges}", case, {"edge_types": kept})
+        return i
     si = "ok " + " ".join(str(int(x)) for x in scorer.sorted_edge_inds)
     if m_re is None:
         m_re = model_of([re_edges])[0]
